@@ -491,6 +491,54 @@ func panicPass(run *ev.Run, prop string) {
 			}
 		}
 	}
+	// the same histories on a transport whose n-th Send FAILS with each error value a Go transport can fail with (errno
+	// values, os.ErrClosed / net.ErrClosed / io.EOF ..., wrapped, opaque): Close still closes the socket exactly once,
+	// whatever the PID-clear request came to; setters report the failure
+	m := 0
+	for fe := range ksim.SendFailErrors {
+		for fn := 1; fn <= 3; fn++ {
+			for _, hist := range [][]string{{"SetPID", "Close"}, {"SetPIDNoWait", "Wait", "Close"}, {"Rate", "SetPID", "Close"}, {"SetPID", "Status", "Close", "Close"}, {"Rate", "Close"}} {
+				sim := ksim.New(nil)
+				sim.NoDeviations = true
+				sim.Shape = ksim.Shape{SendFailN: fn, SendFailErr: fe}
+				c := &libaudit.AuditClient{Netlink: sim}
+				sends := 0
+				for _, op := range hist {
+					var err error
+					isSetter := false
+					switch op {
+					case "SetPID":
+						err, isSetter = c.SetPID(libaudit.WaitForReply), true
+					case "SetPIDNoWait":
+						err, isSetter = c.SetPID(libaudit.NoWait), true
+					case "Rate":
+						err, isSetter = c.SetRateLimit(3, libaudit.NoWait), true
+					case "Wait":
+						_ = c.WaitForPendingACKs()
+					case "Status":
+						_, _ = c.GetStatus()
+						sends++
+					case "Close":
+						_ = c.Close()
+					}
+					if isSetter {
+						sends++
+						if sends == fn && !errors.Is(err, ksim.SendFailErrors[fe]) {
+							run.Report(ev.Violation{Sig: prop + " send-failure-not-reported", What: fmt.Sprintf("history %v: the transport's Send #%d failed with %v, %s returned %v", hist, fn, ksim.SendFailErrors[fe], op, err), Replay: map[string]interface{}{"history": hist, "shape": sim.Shape}})
+							return
+						}
+					}
+				}
+				m++
+				if sim.Closes != 1 {
+					run.Report(ev.Violation{Sig: prop + " close-count-after-send-failure", What: fmt.Sprintf("history %v on a transport whose Send #%d fails with %v (%T): the socket was closed %d times, want exactly once | kernel log: %v", hist, fn, ksim.SendFailErrors[fe], ksim.SendFailErrors[fe], sim.Closes, sim.Log), Replay: map[string]interface{}{"history": hist, "shape": sim.Shape}})
+					return
+				}
+			}
+		}
+	}
+	run.Add("traces_validated_against_impl", int64(m))
+	run.Set("send_failure_pass", fmt.Sprintf("%d histories on transports whose n-th Send fails with one of %d error values", m, len(ksim.SendFailErrors)))
 	run.Add("traces_validated_against_impl", int64(n))
 	run.Set("panic_pass", fmt.Sprintf("%d histories on transports that panic once in Close / in the n-th Send", n))
 }
